@@ -871,3 +871,12 @@ def replay(ctx, data):
         return False
     r, dec = c05_eval(c, L[c.name], msg, slot_need(c), None, has_padding(c), False, strict=strict)
     return r is None
+
+
+# --- W19 (nested tier): truncated PDUs are rejected / nothing is invented, for every description of the model -------------------
+LEAN_TARGETS = LEAN_TARGETS + ["OdxVerif.Props.C05Nested"]
+THEOREMS = THEOREMS + ["OdxVerif.Codec." + t for t in [
+    "C05_truncated_rejected_nested", "C05_no_invention_nested", "C05_truncated_rejected_site", "C05_nested_result_classes",
+    "C05_jump_is_not_a_read", "C05_truncated_rejected_comps", "C05_truncated_rejected_described", "C05_truncated_rejected_described2",
+    "C05_truncated_leaf_described",
+    "C05_truncated_leaf_described_example", "Comps.reads_prefix", "Reads.rejected", "Reads.msg", "keeps_decode_all", "c5Req_reads"]]
